@@ -1,14 +1,18 @@
-"""C20 - every failure surfaces as a catchable exception: no terminate, no leak."""
+"""C20 - every failure surfaces as a catchable exception: no terminate, no leak (all four archives)."""
 import json
 import os
 import vlib
 from vlib import Check
 from checks import mpcommon as mp
 
+S = lambda s: [ord(c) for c in s]
+I = lambda neg, n: ["int", neg, list(n.to_bytes(8, "big"))]
 
-def fixed_scenarios():
-    """Representative scenarios (fault-free runs end without exception)."""
-    S = lambda s: [ord(c) for c in s]
+
+UNITS = {"utf8": (1, False), "utf16le": (2, False), "utf16be": (2, True), "utf32le": (4, False), "utf32be": (4, True)}
+
+
+def msgpack_fixed():
     load_doc = [0x93, 0xa3] + S("pad") + [0x84, 0xa1, 0x61, 5, 0xa1, 0x62, 0xd9, 40] + [120] * 40 + [0xa1, 0x63, 0x93, 1, 0xcd, 1, 0, 3,
                                                                                               0xa1, 0x64, 0x82, 0xa1, 0x6e, 9, 0xa1, 0x6d, 0xc4, 3, 1, 2, 3, 7]
     load_root = {"k": "arr", "ops": [{"op": "elem", "t": "str"},
@@ -17,15 +21,47 @@ def fixed_scenarios():
                                                            {"op": "req", "ks": S("a"), "t": "i8"}, {"op": "req", "ks": S("z"), "t": "i32"}]},
                                      {"op": "elem", "t": "i32"}]}
     save_root = {"k": "obj", "ops": [{"op": "req", "ks": S("s"), "t": "str", "v": ["str", [120] * 40]},
-                                     {"op": "req", "ks": S("v"), "t": "vec_i32", "v": ["arr", [["int", False, [0, 0, 0, 0, 0, 0, 1, 0]], ["int", True, [0, 0, 0, 0, 0, 0, 0, 5]]]]},
+                                     {"op": "req", "ks": S("v"), "t": "vec_i32", "v": ["arr", [I(False, 256), I(True, 5)]]},
                                      {"op": "obj", "ks": S("o"), "ops": [{"op": "req", "ks": S("t"), "t": "tp_ns", "v": ["ts", True, [0, 0, 0, 0, 0, 0, 0, 2], 500000000]},
-                                                                          {"op": "req", "ks": S("m"), "t": "map_str_i32", "v": ["map", [[["str", [97]], ["int", False, [0, 0, 0, 0, 0, 0, 0, 1]]]]]}]},
+                                                                          {"op": "req", "ks": S("m"), "t": "map_str_i32", "v": ["map", [[["str", [97]], I(False, 1)]]]}]},
                                      {"op": "arr", "ks": S("a"), "ops": [{"op": "elem", "t": "vec_u8", "v": ["bin", [1, 2, 3]]}, {"op": "elem", "t": "f64", "v": ["f64", [63, 248, 0, 0, 0, 0, 0, 0]]}]}]}
     out = []
     for stream in (False, True):
-        out.append({"id": "load-%s" % ("stream" if stream else "mem"), "doc": load_doc, "root": load_root, "pol": {"mm": "throw", "ov": "throw"}, "stream": stream})
-        out.append({"id": "loadskip-%s" % ("stream" if stream else "mem"), "doc": load_doc, "root": load_root, "pol": {"mm": "skip", "ov": "skip"}, "stream": stream})
-        out.append({"id": "save-%s" % ("stream" if stream else "mem"), "save": True, "root": save_root, "pol": {}, "stream": stream})
+        sfx = "stream" if stream else "mem"
+        out.append({"id": "load-" + sfx, "doc": load_doc, "root": load_root, "pol": {"mm": "throw", "ov": "throw"}, "stream": stream})
+        out.append({"id": "loadskip-" + sfx, "doc": load_doc, "root": load_root, "pol": {"mm": "skip", "ov": "skip"}, "stream": stream})
+        out.append({"id": "save-" + sfx, "save": True, "root": save_root, "pol": {}, "stream": stream})
+    return out
+
+
+def text_fixed(arch, exe):
+    """JSON / XML: a representative object is saved (memory, and to a stream in UTF-16LE with BOM); the produced documents are the
+    inputs of the load scenarios, which request the members out of order, skip one and ask for a missing one."""
+    save_root = {"k": "obj", "ops": [{"op": "req", "ks": S("s"), "t": "str", "v": ["str", [120] * 40]},
+                                     {"op": "req", "ks": S("v"), "t": "vec_i32", "v": ["arr", [I(False, 256), I(True, 5)]]},
+                                     {"op": "obj", "ks": S("o"), "ops": [{"op": "req", "ks": S("n"), "t": "i32", "v": I(False, 9)},
+                                                                          {"op": "req", "ks": S("m"), "t": "map_str_i32", "v": ["map", [[["str", [97]], I(False, 1)]]]}]},
+                                     {"op": "arr", "ks": S("a"), "ops": [{"op": "elem", "t": "str", "v": ["str", S("q")]}, {"op": "elem", "t": "str", "v": ["str", S("w")]}]},
+                                     {"op": "req", "ks": S("u"), "t": "str", "v": ["str", S("unread")]}]}
+    load_root = {"k": "obj", "ops": [{"op": "req", "ks": S("v"), "t": "vec_i32"},
+                                     {"op": "obj", "ks": S("o"), "ops": [{"op": "req", "ks": S("m"), "t": "map_str_i32"}, {"op": "req", "ks": S("n"), "t": "i32"}]},
+                                     {"op": "req", "ks": S("s"), "t": "str"},
+                                     {"op": "arr", "ks": S("a"), "ops": [{"op": "elem", "t": "str"}, {"op": "elem", "t": "str"}]},
+                                     {"op": "req", "ks": S("z"), "t": "i32"}]}
+    wide = {"enc": "utf16le", "bom": True}
+    rows = [{"id": "sv0", "root": save_root, "pol": {}}, {"id": "sv1", "root": save_root, "pol": {}, "opt": wide}]
+    sp = os.path.join(vlib.scratch(), "c20_%s_presave.ndjson" % arch)
+    vlib.write_ndjson(sp, rows)
+    saved = vlib.run_resumable([exe, "save", sp], timeout=300)
+    if len(saved) != 2 or any("e" in o or o["excmem"] != ["none"] or o["excstream"] != ["none"] for o in saved):
+        raise vlib.MachineryError("C20 %s: the representative object cannot be saved: %s" % (arch, json.dumps(saved)[:300]))
+    out = []
+    for stream in (False, True):
+        sfx = "stream" if stream else "mem"
+        out.append({"id": "save-" + sfx, "save": True, "root": save_root, "pol": {}, "stream": stream})
+        out.append({"id": "load-" + sfx, "doc": saved[0]["mem"], "root": load_root, "pol": {"mm": "throw", "ov": "throw"}, "stream": stream})
+    out.append({"id": "save-utf16", "save": True, "root": save_root, "pol": {}, "opt": wide, "stream": True})
+    out.append({"id": "load-utf16", "doc": saved[1]["stream"], "root": load_root, "pol": {"mm": "skip", "ov": "skip"}, "stream": True, "enc": "utf16le"})
     return out
 
 
@@ -35,62 +71,107 @@ def outcome(o):
     return "none" if o["exc"] == ["none"] else "exception"
 
 
-def run_check(tier):
-    chk = Check("C20", tier, level="model_checking")
-    chk.cov["rule"] = ("case = (scenario, fault kind, fault position k) with k ranging over every counted fault point of the fault-free run "
-                       "(k-th operator new / byte k of the input stream / byte k of the output stream) plus one position past the last; "
-                       "distinct = distinct (scenario, kind, k); all of them inject a fault, so all are non-trivial")
-    chk.assumptions += ["fault points are those the harness can count: operator new calls, bytes requested from / written to the stream buffer",
-                        "leak = blocks allocated during the call that are still allocated after every object of the call was destroyed"]
-    quick = tier == "quick"
-    scen = fixed_scenarios()
-    # generated scenarios: documents/scripts of the C03/C05 spaces (fault-free subset), loaded from a stream
-    chk2 = Check("C20", tier)
-    gen = mp.gen("MC_LoadScript", {"Mode": '"skip"', "MaxOps": 1, "Widths": "{0}", "Pads": "{0}"}, ["Export"], "c20-skip", chk, timeout=1500)
-    gen += mp.gen("MC_LoadScript", {"Mode": '"fields"', "MaxOps": 2, "Widths": "{0}", "Pads": "{3}"}, ["Export"], "c20-fields", chk, timeout=1500)
-    gen = [g for g in gen if g["exp"]["exc"] == ["none"]]
+def generated(chk, arch, quick):
+    """Documents/scripts of the C03/C05/C08 spaces whose fault-free run the specification expects to succeed, loaded from a stream."""
+    base = {"Arch": '"%s"' % arch} if arch != "msgpack" else {}
+    pads = "{0}" if arch != "xml" else "{2}"
+    gen = mp.gen("MC_LoadScript", dict(base, Mode='"skip"', MaxOps=1, Widths="{0}", Pads=pads), ["Export"], "c20-%s-skip" % arch, chk, timeout=1500)
+    gen += mp.gen("MC_LoadScript", dict(base, Mode='"fields"', MaxOps=2, Widths="{0}", Pads="{3}" if arch == "msgpack" else pads), ["Export"],
+                  "c20-%s-fields" % arch, chk, timeout=1500)
+    gen = [g for g in gen if g["exp"]["exc"] == ["none"] and g["root"]["k"] != "leaf"]
     step = max(1, len(gen) // (12 if quick else 150))
-    for i, g in enumerate(gen[::step]):
-        scen.append({"id": "gen%d" % i, "doc": g["doc"], "root": g["root"], "pol": g["pol"], "stream": True})
-    exe = mp.harness(8)
-    # probe runs: count the fault points
-    rows = [dict(s, fault={"kind": "probe", "k": 0}) for s in scen]
-    sp = os.path.join(vlib.scratch(), "probe.ndjson")
-    vlib.write_ndjson(sp, rows)
+    return [{"id": "gen%d" % i, "doc": g["doc"], "root": g["root"], "pol": g["pol"], "stream": True, "enc": g.get("meta", {}).get("enc", "utf8")} for i, g in enumerate(gen[::step])]
+
+
+def csv_scenarios(chk, quick):
+    cfg = mp.write_cfg("mc_csvfaults.cfg", "SPECIFICATION Spec\nCONSTANT MaxRows = %d\nINVARIANT Export\n" % (2 if quick else 3))
+    r = vlib.tlc("MC_CsvFaults", cfg=cfg, timeout=1500)
+    chk.add_tlc("MC_CsvFaults scenarios", r)
+    out, seen = [], set()
+    for i, g in enumerate(r.printed("GEN")):
+        sv, ld = g["save"], g["load"]
+        out.append({"id": "csvsave%d" % i, "save": True, "stream": sv["stream"], "rows": sv["rows"], "opt": sv["opt"], "pol": sv["pol"], "exp": sv["exp"]})
+        key = json.dumps([ld["doc"], ld["stream"], ld["keys"], ld["pol"]])
+        if not ld["skip"] and key not in seen:
+            seen.add(key)
+            out.append({"id": "csvload%d" % i, "save": False, "stream": ld["stream"], "doc": ld["doc"], "keys": ld["keys"], "pol": ld["pol"], "exp": ld["exp"]})
+    return out
+
+
+def fault_leg(chk, tier, arch):
+    quick = tier == "quick"
+    if arch == "csv":
+        exe = vlib.build("csv_fault_c32", ["csv_fault.cpp"], groups=("csv", "common"), defines=["BITSERIALIZER_VERIF_ENC_CHUNK_SIZE=32"])
+        scen = csv_scenarios(chk, quick)
+        # every generated scenario is probed (the specification prescribes the fault-free outcome); faults are injected into a sample
+        nfault = 60 if quick else 600
+    else:
+        exe = mp.harness(8, arch)
+        scen = (msgpack_fixed() if arch == "msgpack" else text_fixed(arch, exe)) + generated(chk, arch, quick)
+        nfault = len(scen)
+    sp = os.path.join(vlib.scratch(), "c20_%s_probe.ndjson" % arch)
+    vlib.write_ndjson(sp, [dict(s, fault={"kind": "probe", "k": 0}) for s in scen])
     probes = vlib.run_resumable([exe, "fault", sp], timeout=900)
-    pl = []
-    for s, p in zip(scen, probes):
+    if len(probes) != len(scen):
+        raise vlib.MachineryError("C20 %s: %d probe observations for %d scenarios" % (arch, len(probes), len(scen)))
+    pl, chosen = [], []
+    step = max(1, len(scen) // nfault)
+    for i, (s, p) in enumerate(zip(scen, probes)):
         if "e" in p:
-            chk.fail("fault-free run of %s ended with %s" % (s["id"], p["e"]), {"scenario": s, "observed": p})
+            chk.fail("%s: fault-free run of %s ended with %s" % (arch, s["id"], p["e"]), {"arch": arch, "scenario": s, "observed": p})
             continue
-        pl.append({"id": s["id"], "save": bool(s.get("save")), "stream": bool(s.get("stream")), "allocs": p["allocs"],
-                   "len": len(s.get("doc", [])), "produced": p["produced"], "probe": outcome(p)})
-    pp = os.path.join(vlib.scratch(), "probes.ndjson")
+        if "exp" in s and outcome(p) != s["exp"]:
+            chk.fail("%s: fault-free run of %s: the specification prescribes %s, observed %s" % (arch, s["id"], s["exp"], json.dumps(p["exc"])),
+                     {"arch": arch, "scenario": s, "observed": p})
+            continue
+        if "exp" not in s and outcome(p) != "none":
+            chk.fail("%s: fault-free run of %s raised %s" % (arch, s["id"], json.dumps(p["exc"])), {"arch": arch, "scenario": s, "observed": p})
+            continue
+        if i % step == 0 or ("exp" in s and s["exp"] == "exception" and i % 3 == 0):
+            chosen.append(s)
+            pl.append({"id": s["id"], "arch": arch, "save": bool(s.get("save")), "stream": bool(s.get("stream")), "allocs": p["allocs"],
+                       "doc": s.get("doc", []), "unit": UNITS.get(s.get("enc", "utf8"), (1, False))[0], "be": UNITS.get(s.get("enc", "utf8"), (1, False))[1], "produced": p["produced"], "probe": outcome(p)})
+    chk.add_cases(len(scen), distinct_keys=((arch, "probe", s["id"]) for s in scen), validated=len(scen))
+    pp = os.path.join(vlib.scratch(), "c20_%s_probes.ndjson" % arch)
     vlib.write_ndjson(pp, pl)
     r = vlib.tlc("MC_Faults", env={"PROBES": pp}, timeout=1500)
-    chk.add_tlc("MC_Faults fault plan", r, {"scenarios": len(pl)})
+    chk.add_tlc("MC_Faults fault plan (%s)" % arch, r, {"scenarios": len(pl)})
     plan = r.printed("GEN")
-    byid = {s["id"]: s for s in scen}
-    rows = []
-    for f in plan:
-        s = byid[pl[f["s"] - 1]["id"]]
-        rows.append(dict(s, fault={"kind": f["kind"], "k": f["k"]}))
+    rows = [dict(chosen[f["s"] - 1], fault={"kind": f["kind"], "k": f["k"]}) for f in plan]
     vlib.write_ndjson(sp, rows)
     obs = vlib.run_resumable([exe, "fault", sp], timeout=3000)
     if len(obs) != len(rows):
-        raise vlib.MachineryError("fault replay: %d observations for %d runs" % (len(obs), len(rows)))
+        raise vlib.MachineryError("fault replay (%s): %d observations for %d runs" % (arch, len(obs), len(rows)))
     lines = []
     for f, row, o in zip(plan, rows, obs):
-        lines.append(json.dumps({"id": "%s/%s/%d" % (row["id"], f["kind"], f["k"]), "kind": f["kind"], "k": f["k"], "n": f["n"],
-                                 "outcome": outcome(o), "leak": o.get("leak", 0), "probe": pl[f["s"] - 1]["probe"]}))
+        lines.append(json.dumps({"id": "%s/%s/%s/%d" % (arch, row["id"], f["kind"], f["k"]), "kind": f["kind"], "k": f["k"], "n": f["n"], "reject": f["reject"],
+                                 "outcome": outcome(o), "leak": o.get("leak", 0), "hits": o.get("hits", 0), "probe": pl[f["s"] - 1]["probe"]}))
     checked, bad = vlib.validate_traces("Trace_Faults", lines)
     obsby = {json.loads(l)["id"]: (row, o) for l, row, o in zip(lines, rows, obs)}
     for b in bad:
         row, o = obsby[b["id"]]
-        chk.fail("fault %s: %s" % (b["id"], b["why"]), {"scenario": row, "observed": o})
+        chk.fail("fault %s: %s" % (b["id"], b["why"]), {"arch": arch, "scenario": row, "observed": o})
     chk.add_cases(len(rows), distinct_keys=(json.loads(l)["id"] for l in lines), validated=checked)
-    chk.sample({"fault_run": json.loads(lines[len(lines) // 2]), "scenario_root": rows[len(rows) // 2]["root"]})
-    chk.cov["fault_points"] = {p["id"]: {"allocs": p["allocs"], "input_bytes": p["len"], "output_bytes": p["produced"]} for p in pl[:12]}
+    if lines:
+        chk.sample({"arch": arch, "fault_run": json.loads(lines[len(lines) // 2]), "scenario": {k: v for k, v in rows[len(rows) // 2].items() if k != "doc"}})
+    chk.cov.setdefault("fault_points", {})[arch] = {p["id"]: {"allocs": p["allocs"], "input_bytes": len(p["doc"]), "output_bytes": p["produced"]} for p in pl[:8]}
+    kinds = {}
+    for f in plan:
+        kinds[f["kind"]] = kinds.get(f["kind"], 0) + 1
+    chk.cov.setdefault("fault_runs_by_kind", {})[arch] = kinds
+
+
+def run_check(tier):
+    chk = Check("C20", tier, level="model_checking")
+    chk.cov["rule"] = ("case = a probe run of a scenario, or (scenario, fault kind, fault position k) with k ranging over every counted fault point of the "
+                       "fault-free run (k-th operator new / byte k of the input stream ends the data or raises an I/O error / byte k of the output stream "
+                       "is refused or throws) plus one position past the last; distinct = distinct (archive, scenario, kind, k)")
+    chk.assumptions += ["fault points are those the harness can count: operator new calls, bytes requested from / written to the stream buffer "
+                        "(RapidJSON and pugixml allocate their DOM with malloc: those allocations are not fault points)",
+                        "leak = blocks allocated with operator new during the call that are still allocated after every object of the call was destroyed",
+                        "JSON and XML scenarios have an object/array root, so every prefix that cuts a significant byte is malformed"]
+    for arch in ("msgpack", "json", "xml", "csv"):
+        fault_leg(chk, tier, arch)
     return chk.finish()
 
 
@@ -99,5 +180,20 @@ def run(tier):
 
 
 def replay(path):
+    """Re-executes a recorded fault run against the current tree."""
+    rec = json.load(open(path))
+    case = rec.get("case", {})
+    if "scenario" in case and "arch" in case:
+        arch = case["arch"]
+        exe = vlib.build("csv_fault_c32", ["csv_fault.cpp"], groups=("csv", "common"), defines=["BITSERIALIZER_VERIF_ENC_CHUNK_SIZE=32"]) if arch == "csv" else mp.harness(8, arch)
+        row = dict(case["scenario"])
+        row.setdefault("fault", {"kind": "probe", "k": 0})
+        sp = os.path.join(vlib.scratch(), "c20_replay.ndjson")
+        vlib.write_ndjson(sp, [row])
+        o = vlib.run_resumable([exe, "fault", sp], timeout=300)
+        print(json.dumps({"recorded": case["observed"], "now": o}, indent=1))
+        same = o and outcome(o[0]) == outcome(case["observed"]) and o[0].get("leak", 0) == case["observed"].get("leak", 0)
+        print("REPLAY property=C20 %s" % ("reproduced" if same else "not reproduced"))
+        return 1 if same else 0
     print(open(path).read())
     return run_check("quick")
